@@ -48,6 +48,14 @@ CLAIMS["C06"] = ("typestate dataflow fixpoint of the worker protocol over the MI
     "OS scheduler; reader-internal loops are not decided.",
     "DESIGN.md §3 C06")
 
+CLAIMS["C13"] = ("must-pass-through analysis on the MIR CFG of all 32 print variants with slice-provenance classification of every sink (file field / date field / message bytes), dispatcher decision tables, provenance of the separator write and of the alignment-width loop",
+    "Static necessary-condition check: for all 8 flag combinations of the 4 dispatchers, the selected variant writes per printed line the file "
+    "field then the datetime field before any message bytes exactly when the flags say so; the datetime helpers of all four kinds apply the "
+    "prepend offset and format to the message's own instant; the separator follows every kind of message under one condition; alignment width "
+    "ranges over sources with a pending message; colour changes come only from termcolor in colour variants. Does not decide escape bytes, "
+    "display widths or strftime output.",
+    "DESIGN.md §3 C13")
+
 NA_REASON = {}
 
 checks = []
